@@ -3,6 +3,7 @@ import Clover.Generated.Facts
 import Clover.Props.C17
 import Clover.Proofs.PlannerModel
 import Clover.Proofs.ReadsExact
+import Clover.Proofs.CopyAnyPlan
 /-! # C02 — index transparency (planner soundness + scan exactness, on the model's definitions) -/
 namespace CV.Props.C02
 open CV OC
@@ -144,5 +145,19 @@ theorem delete_index_transparent (s : Spec.State) (σ : KVS) (hw : WF s) (hr : R
     let sp := Spec.step likeFn fnFam s (.delete q)
     ∃ sel, r.1 = .ok (.docs sel) ∧ sel.Perm (Spec.findAll likeFn fnFam q coll) ∧ Rep sp.2 r.2.1 ∧ WF sp.2 :=
   delete_exact_any_plan_ok likeFn fnFam s σ hw hr q coll hl hdomain hskip hlimit
+
+/-- … and of `CreateCollectionByQuery`: the copy made through ANY plan of the source's indexes is the
+    specification's copy — same answer (also the errors: target exists, source missing, a stored
+    document that `Validate` refuses), and the store represents the specification's next state.  The
+    selected documents arrive in index order rather than id order; inserting documents with distinct
+    ids into a sorted map commutes (`insertAll_perm_eq`). -/
+theorem copy_index_transparent (s : Spec.State) (σ : KVS) (hw : WF s) (hr : Rep s σ) (c : Bytes)
+    (hc : Keys.Clean c) (q : Query) (fresh : List Bytes)
+    (hdomain : ∀ src, Spec.lookup q.coll (Spec.insert c ({} : Spec.Coll) s) = some src → KeyDomain q src)
+    (hskip : q.skip = 0) (hlimit : q.limit < 0) :
+    let r := withTx true (Op.body likeFn fnFam (.createCollectionByQuery c q fresh)) noFault σ
+    let sp := Spec.step likeFn fnFam s (.createCollectionByQuery c q fresh)
+    r.1 = sp.1 ∧ Rep sp.2 r.2.1 ∧ WF sp.2 :=
+  createCollectionByQuery_exact_any_plan likeFn fnFam s σ hw hr c hc q fresh hdomain hskip hlimit
 
 end CV.Props.C02
